@@ -23,6 +23,10 @@ class Tracer:
         self.unsupported = 0
         self.early_of = {}
         self.want_pre = False
+        self.record_mw = False
+        self.mw_records = []
+        self.record_env = False
+        self.env_records = []
 
     def codec_for(self, instance, cfg):
         c = self.codecs.get(id(instance))
@@ -62,7 +66,72 @@ class Tracer:
                 kw["state_machine_step"] = tracer.recording_step
                 super().__init__(*a, **kw)
 
+            def step(self, state, action):
+                if not tracer.record_mw:
+                    return super().step(state, action)
+                codec = tracer.codec_for(self.instance, self.config)
+                pre_r = result_sx(codec, state)
+                pre_m = mw_sx(self)
+                n0 = len(tracer.records)
+                try:
+                    a_sx = str(int(action))
+                except Exception:
+                    a_sx = None
+                try:
+                    r, obs = super().step(state, action)
+                except jsl.StepBudgetExceeded:
+                    tracer.mw_records.append((codec, pre_r, pre_m, a_sx, "(fuel)", n0))
+                    raise
+                except ImplRaised as e:
+                    tracer.mw_records.append((codec, pre_r, pre_m, a_sx, "(raise %s)" % e.cls, n0))
+                    raise
+                except Exception as e:
+                    tracer.mw_records.append((codec, pre_r, pre_m, a_sx, "(raise %s)" % type(e).__name__, n0))
+                    raise
+                if r.success:
+                    lg = sxl(sx(m[1], m[2]) for rec in tracer.records[n0:] for m in (rec.micro or []))
+                    out = sx("ok", result_sx(codec, r), mw_sx(self), lg)
+                else:
+                    out = sx("fail", codec.sto(), mw_sx(self))
+                tracer.mw_records.append((codec, pre_r, pre_m, a_sx, out, n0))
+                return r, obs
+
         return RecMiddleware
+
+
+def result_sx(codec, r):
+    return sx(codec.state(r.state), codec.transitions(r.possible_transitions), codec.transitions(r.action.transitions))
+
+
+def mw_sx(mw):
+    st = mw.stepper
+    return "(%d %d %d %d)" % (mw.truncation_joker, st.no_op_counter, st.action_counter, 1 if st.trunction_active else 0)
+
+
+def replay_mw(mw_records, driver):
+    bad = []
+    for k, (codec, pre_r, pre_m, a, out, n0) in enumerate(mw_records):
+        if a is None:
+            continue
+        driver.set_codec(codec)
+        m = driver.ask("W %d %s %s %s" % (jsl.MODEL_FUEL, pre_r, pre_m, a))
+        if m != out:
+            bad.append((k, mw_records[k], m))
+    return bad
+
+
+def replay_env(env_records, driver):
+    bad = []
+    for k, (codec, pre, a, out) in enumerate(env_records):
+        driver.set_codec(codec)
+        try:
+            a_sx = str(int(a))
+        except Exception:
+            continue
+        m = driver.ask("E %d %s %s" % (jsl.MODEL_FUEL, pre, a_sx))
+        if m != out:
+            bad.append((k, env_records[k], m))
+    return bad
 
 
 class ImplRaised(Exception):
